@@ -1,6 +1,15 @@
 /-
 C08 — Service: each request gets exactly one outcome; contexts follow their schedule.
 Headline theorems about the model `Irismod.Service` (every state, every operation).
+
+Since /repo f0f40e8 (F-svc-3) and 1a7f3af (F-svc-5) the scheduler statements hold in full: a due new-batch
+entry is consumed whatever its handler decides (`due_entry_processed`, `new_phase_leaves_no_due_entry`), no
+batch is issued beyond the repeated total (`no_batch_beyond_total`, `start_respects_total`, `below_total_run`),
+and no queue entry ever lies in the past (`no_stale_entry_step`; over histories
+`Irismod.Props.C13S.no_stale_entries`).  Hypotheses, all explicit: `FreshOp` (a new context id is not in use —
+`tmhash(tx) ‖ index`, modulo collisions), `opValidated` (module contexts are created under a module name, so
+`ValidateRequest` runs; keeper-level updates carry a non-negative timeout), `UnmodifiedHistory` for the
+total bound (an update may lower the total below what is queued — the keeper rejects only `total < counter`).
 -/
 import Irismod.Proofs.ServiceNoStale
 import Irismod.Spec.C08
